@@ -57,6 +57,21 @@
 //	      oracles of (ii)-(iv) run on them and the Lean model (whose registry lookup findModule
 //	      takes the revision-date) is compared on every one.
 //
+//	(vii) scope families (harness/gen/c06scope.go), every case with the oracles of (ii)-(iv) and the model:
+//	      typedef scopes nested inside groupings (two to four levels of container / list / nested
+//	      grouping / action input and output / notification, each level declaring its own subset of
+//	      a three-name pool, one leaf per visible name at every level, decoy typedefs of the same
+//	      names at the module level of the defining and of the using module and in the using
+//	      statements; the grouping used in its module, in another module, under rpc input / output,
+//	      in a notification, a list, through a wrapping grouping and in an augment body): the
+//	      reference expansion here carries kind/range/length of every resolved type, every typedef
+//	      having a restriction of its own, so each leaf of the definition and of every copy must
+//	      show the typedef the DEFINING scope gives; and prefix pools (own and import prefixes that
+//	      contain, end with or begin with one another: if / oc-if / if-ext / i / iff ..., grouping
+//	      names equal to or containing a prefix, prefixed / own-prefixed / unprefixed uses at the
+//	      top of containers and nested in groupings, decoy local groupings of every name that
+//	      cutting the own prefix out of a reference would leave).
+//
 // Inputs: corpus/C06/*.json first (hand-written witnesses with a table of expected Extra / Exts),
 // then the deep chains, then the revision families, then the seeded sets. Any failure of (ii), (iii), (iv) or (v) is a "spec" disagreement with verdict "violates".
 package main
@@ -99,14 +114,25 @@ type know struct {
 	// Family "rev": several revisions of the defining module are loaded and the import statements
 	// designate different ones (gen/c06rev.go); the findings then name the clause
 	Family string `json:"family,omitempty"`
+	// TypeSig: the reference expansion carries kind/range/length of every resolved type (gen/c06scope.go)
+	TypeSig bool `json:"type_sig,omitempty"`
 }
+
+// scopeClause / prefixClause are appended to the findings of the families of gen/c06scope.go.
+const scopeClause = " [locally scoped: a type name written inside a grouping denotes the typedef of the nearest enclosing statement of the DEFINING text that declares that name - statements in between that declare only other typedefs are passed over - else the defining module's own top-level typedef; the grouping's own entry and every copy (same module, another module, rpc output, notification, augment body) carry that type, never a same-named typedef of the using scope]"
+const prefixClause = " [locally scoped: a uses under a prefix denotes the grouping of the module the file imports under exactly that prefix; only a reference whose whole prefix equals the file's own prefix (or none) is looked up locally, whatever substring / suffix relation the prefixes and grouping names have; the using node receives a copy of that grouping's nodes]"
 
 // revClause is appended to binding / copy findings of a revision family.
 const revClause = " [several revisions of the defining module are loaded: a prefixed uses denotes the grouping of exactly the revision the import statement of its own file designates - revision-date, else the latest loaded revision (RFC 7950 5.1.1); the using node must receive that grouping's nodes, nested uses included]"
 
 func (k know) clause() string {
-	if k.Family == "rev" {
+	switch k.Family {
+	case "rev":
 		return revClause
+	case "typedef-scopes":
+		return scopeClause
+	case "prefix-pools":
+		return prefixClause
 	}
 	return ""
 }
@@ -429,6 +455,10 @@ func overlap(x, y gen.C06Site) bool {
 }
 
 func checkBinding(k know, ix astIndex, f findings) {
+	clause := k.clause()
+	if k.Family == "typedef-scopes" {
+		clause = prefixClause // the binding of a uses statement is the prefix clause in both scope families
+	}
 	for _, u := range k.Uses {
 		n := ix.uses[u.Loc]
 		if n == nil {
@@ -441,7 +471,7 @@ func checkBinding(k know, ix astIndex, f findings) {
 			got = g.Statement().Location()
 		}
 		if got != u.GLoc {
-			f.add("binding: uses %s at %s (%s) binds to the grouping at %q, the scoping rules say %q%s", u.Ref, u.Loc, u.Site, got, u.GLoc, k.clause())
+			f.add("binding: uses %s at %s (%s) binds to the grouping at %q, the scoping rules say %q%s", u.Ref, u.Loc, u.Site, got, u.GLoc, clause)
 		}
 	}
 }
@@ -481,6 +511,9 @@ func checkExpansion(k know, ms *yang.Modules, f findings, skip func(*yang.Module
 		}
 		if e.Type != nil {
 			r.TypeKind = yang.TypeKindToName[e.Type.Kind]
+			if k.TypeSig {
+				r.TSig = r.TypeKind + "/" + e.Type.Range.String() + "/" + e.Type.Length.String()
+			}
 			if e.Type.IdentityBase != nil {
 				r.IdBase = lib.IdentityKey(e.Type.IdentityBase)
 			}
@@ -1106,6 +1139,9 @@ func oracle(c rescorr.Case, ms *yang.Modules, errs []error, out *rescorr.GoOut) 
 		checkOldRevision(c, k, f)
 	}
 	var bix *astIndex
+	if !mut && len(k.AugNodes) > 0 {
+		checkAugNamespaces(k, ms, f)
+	}
 	if mut {
 		checkAugNamespaces(k, ms, f)
 		bix = checkAgainstBase(c, k, ms, ix, f)
@@ -1146,7 +1182,7 @@ func main() {
 	var clean, cleanMut, withErr, outside, skipped, sitesChecked, untouchedChecked, total int64
 	// corpus first: hand-written witnesses (corpus/C06/*.json) with a table of expected Extra / Exts
 	var corpusN, corpusClean int64
-	{
+	if want("corpus") {
 		paths, _ := filepath.Glob("/verif/corpus/C06/*.json")
 		sort.Strings(paths)
 		var cases []rescorr.Case
@@ -1185,7 +1221,8 @@ func main() {
 				kn = know{Variant: "mut", Sites: cc.Sites, BaseNames: cc.BaseNames, BaseTexts: cc.BaseTexts, Uses: cc.Uses, AugNodes: cc.AugNodes}
 			}
 			kb, _ := json.Marshal(kn)
-			cases = append(cases, rescorr.Case{Names: cc.Names, Texts: cc.Texts, Extra: map[string]string{"c06": string(kb), "origin": "corpus/" + filepath.Base(p)}})
+			cases = append(cases, rescorr.Case{Names: cc.Names, Texts: cc.Texts, Extra: map[string]string{"c06": string(kb), "origin": "corpus/" + filepath.Base(p),
+				"clause": know{Family: cc.Family}.clause()}})
 		}
 		for _, o := range rescorr.RunAll(cases, f) {
 			corpusN++
@@ -1212,7 +1249,7 @@ func main() {
 			}
 			if rescorr.HasErrors(o.Go.Dump) {
 				res.AddDisagreement(lib.Disagreement{Kind: "spec", Input: o.Case.Texts, Go: o.Go.Dump, SpecVerdict: "violates",
-					What: origin + ": corpus case does not process cleanly: " + o.Go.Dump[0], Replay: o.Case})
+					What: origin + ": corpus case does not process cleanly: " + o.Go.Dump[0] + o.Case.Extra["clause"], Replay: o.Case})
 				continue
 			}
 			corpusClean++
@@ -1222,7 +1259,7 @@ func main() {
 	}
 	// then the deterministic deep-chain family (gen/c06chain.go): g0 uses g1 uses ... uses gN
 	var chainN, chainClean, chainMaxDepth, chainModelCompared int64
-	{
+	if want("chains") {
 		var cases []rescorr.Case
 		var specs []gen.C06ChainSpec
 		for i, sp := range gen.C06ChainFamily(f.Thorough()) {
@@ -1274,7 +1311,7 @@ func main() {
 	// defines the groupings, importers that designate different ones
 	var revN, revClean, revFaulty, revOutside, revSites int64
 	revDist := map[string]int64{}
-	{
+	if want("rev") {
 		nrev := gen.C06RevMinimalCount + 856
 		if f.Thorough() {
 			nrev = gen.C06RevMinimalCount + 7856
@@ -1348,7 +1385,122 @@ func main() {
 		}
 		total += revN
 	}
+	// then the two scope families (gen/c06scope.go): typedef scopes nested inside groupings, and pools of
+	// own / import prefixes and grouping names related as substrings
+	var scopeN, scopeClean, scopeMut, scopeOutside, scopeSites int64
+	scopeDist := map[string]int64{}
+	if want("scope") {
+		nscope := 700
+		if f.Thorough() {
+			nscope = 12000
+		}
+		var cases []rescorr.Case
+		var clauses []string
+		for i := 0; i < nscope; i++ {
+			var gc *gen.C06Case
+			var info gen.C06ScopeInfo
+			if i%2 == 0 {
+				gc, info = gen.C06ScopeTypedefs(f.Rand(60000000+i), i/2)
+			} else {
+				gc, info = gen.C06ScopePrefixes(f.Rand(60000000+i), i/2)
+			}
+			clause := know{Family: info.Family}.clause()
+			origin := fmt.Sprintf("%s family %d", info.Family, i)
+			// AugNodes of a case with a mutated variant are what the mutation's augments add; without one
+			// they are what the augment of the base text itself adds (the grouping used in an augment body)
+			var baseAug []gen.C06AugNode
+			if gc.MutTexts == nil {
+				baseAug = gc.AugNodes
+			}
+			kb, _ := json.Marshal(know{Variant: "base", Family: info.Family, TypeSig: info.Family == "typedef-scopes", Uses: gc.Uses, Sites: gc.Sites,
+				Expect: gc.Expect, Late: gc.Late, AugNodes: baseAug, PreConvert: i%4 < 2})
+			cases = append(cases, rescorr.Case{Names: gc.Names, Texts: gc.Texts, Extra: map[string]string{"c06": string(kb), "origin": origin}})
+			clauses = append(clauses, clause)
+			if gc.MutTexts != nil {
+				km, _ := json.Marshal(know{Variant: "mut", Family: info.Family, Uses: gc.Uses, Sites: gc.Sites, BaseNames: gc.Names, BaseTexts: gc.Texts,
+					Late: gc.Late, AugNodes: gc.AugNodes})
+				cases = append(cases, rescorr.Case{Names: gc.MutNames, Texts: gc.MutTexts, Extra: map[string]string{"c06": string(km), "origin": origin + " (mutated variant)"}})
+				clauses = append(clauses, clause)
+				scopeMut++
+			}
+			scopeSites += int64(len(gc.Sites))
+			d := func(name string, n int) { scopeDist[info.Family+": "+name] += int64(n) }
+			b := func(name string, on bool) {
+				if on {
+					d(name, 1)
+				}
+			}
+			d("cases", 1)
+			b("with_submodule", info.Submodule)
+			if info.Family == "typedef-scopes" {
+				scopeDist[fmt.Sprintf("%s: cases_with_%d_nested_typedef_scope_levels", info.Family, info.Levels)]++
+				d("statements_inside_groupings_declaring_typedefs", info.TypedefScopes)
+				d("type_references_inside_groupings", info.Refs)
+				d("references_passing_over_a_nearer_scope_with_other_typedefs", info.SkipRefs)
+				d("references_to_a_name_declared_again_further_out", info.ShadowRefs)
+				d("references_reaching_the_defining_module_level", info.ModuleRefs)
+				d("typedefs_chained_to_an_outer_level", info.Chained)
+				b("used_in_an_augment_body", info.Augment)
+				b("used_through_a_wrapping_grouping", info.Wrapped)
+				for _, sk := range info.SiteKinds {
+					d("site_"+sk, 1)
+				}
+			} else {
+				d("uses_through_an_import_prefix", info.PrefixedUses)
+				d("...import_prefix_contains_own_prefix", info.SubstringUses)
+				d("...import_prefix_ends_with_own_prefix", info.SuffixUses)
+				d("...import_prefix_and_own_prefix_one_a_prefix_of_the_other", info.PrefixOfUses)
+				d("uses_under_own_prefix", info.OwnPrefixUses)
+				d("uses_unprefixed", info.PlainUses)
+				d("uses_of_a_grouping_named_like_or_containing_a_prefix", info.NameIsPrefix)
+				d("decoy_local_groupings_of_spliced_names", info.Decoys)
+			}
+		}
+		for i, o := range rescorr.RunAll(cases, f) {
+			scopeN++
+			origin := o.Case.Extra["origin"]
+			clause := clauses[i]
+			if len(o.Go.Dump) > 0 && strings.Contains(o.Go.Dump[0], "unknown-group") {
+				clause = prefixClause
+			}
+			switch {
+			case o.Crashed:
+				res.AddDisagreement(lib.Disagreement{Kind: "crash", Input: o.Case.Texts, Go: o.CrashMsg, SpecVerdict: "violates",
+					What: origin + ": goyang crashed or hung: " + firstLine(o.CrashMsg), Replay: o.Case})
+				continue
+			case o.Skipped != "":
+				res.AddDisagreement(lib.Disagreement{Kind: "obligation", Input: o.Case.Texts, Go: o.Go.ParseErr, SpecVerdict: "",
+					What: origin + ": not accepted by Modules.Parse (" + o.Go.ParseErr + ")", Replay: o.Case})
+				continue
+			}
+			if len(o.Go.Findings) > 0 {
+				res.AddDisagreement(lib.Disagreement{Kind: "spec", Input: o.Case.Texts, Go: o.Go.Findings, SpecVerdict: "violates",
+					What: origin + ": " + o.Go.Findings[0], Replay: o.Case})
+			}
+			if o.Outside != "" {
+				scopeOutside++
+			} else {
+				g := lib.Project(o.Go.Dump, keys, true)
+				md := lib.Project(o.Model, keys, true)
+				if d := rescorr.Diff(g, md); d != "" {
+					res.AddDisagreement(lib.Disagreement{Kind: "correspondence", Input: o.Case.Texts, Go: g, Model: md, SpecVerdict: "",
+						What: origin + ": resolver differs from the model: " + d, Replay: o.Case})
+				}
+			}
+			if rescorr.HasErrors(o.Go.Dump) {
+				res.AddDisagreement(lib.Disagreement{Kind: "spec", Input: o.Case.Texts, Go: o.Go.Dump, SpecVerdict: "violates",
+					What: origin + ": a set without deliberate faults does not process cleanly: " + o.Go.Dump[0] + clause, Replay: o.Case})
+				continue
+			}
+			scopeClean++
+			distinct.Add(strings.Join(o.Case.Texts, "\x00"))
+		}
+		total += scopeN
+	}
 	const batch = 4000
+	if !want("seeded") {
+		n = 0
+	}
 	for lo := 0; lo < n; lo += batch {
 		hi := lo + batch
 		if hi > n {
@@ -1460,10 +1612,12 @@ func main() {
 	}
 	res.Evaluations = total
 	res.DistinctNontrivial = distinct.Len()
-	res.Rule = "corpus/C06 (witnesses of D62 and of the seeded changes C06-c1, C06-d2, C06-e1, C06-g2, C06-k22), then a deterministic family of deep chains g0 uses g1 ... uses gN (N up to 200 quick, 300 thorough; " +
+	res.Rule = "corpus/C06 (witnesses of D62 and of the seeded changes C06-c1, C06-d2, C06-e1, C06-g2, C06-k22, C06-l21, C06-l22), then a deterministic family of deep chains g0 uses g1 ... uses gN (N up to 200 quick, 300 thorough; " +
 		"top-down / bottom-up / shuffled; one module / submodules / imported modules / alternating; five kinds of instantiation site), then revision families (harness/gen/c06rev.go: 2-3 loaded revisions of the defining module with differing same-named groupings, " +
 		"importers designating different revisions by revision-date in different modules / one module under two prefixes / a submodule against its module / through another importer's grouping, next to imports without revision-date; " +
-		"144 systematic cases = 6 ordered pairs of designations x 24 load orders, then seeded ones in shuffled load order), then seeded grouping-heavy module sets (harness/gen/c06.go: 1-3 modules, 0-3 submodules each with include chains, groupings at " +
+		"144 systematic cases = 6 ordered pairs of designations x 24 load orders, then seeded ones in shuffled load order), then the scope families (harness/gen/c06scope.go: typedef scopes nested 2-4 levels inside groupings with per-level subsets of a three-name typedef pool, " +
+		"references from every level to every visible level, decoy typedefs in the using scopes, sites in the same module / another module / rpc input and output / notification / list / wrapping grouping / augment body, the resolved type's kind/range/length compared per node; " +
+		"prefix pools: own and import prefixes that contain / end with / begin with one another, grouping names equal to or containing a prefix, decoy local groupings of every spliced name), then seeded grouping-heavy module sets (harness/gen/c06.go: 1-3 modules, 0-3 submodules each with include chains, groupings at " +
 		"module level, in submodules, in containers/lists/operations/notifications and inside groupings, tiny name pools so that shadowing is " +
 		"frequent, submodules whose belongs-to prefix differs from the module's own prefix and which import another module under the " +
 		"module's own prefix or a sibling's belongs-to prefix, nested uses, typedef t and identity idn defined per module so that resolving in the wrong scope shows, every reachable " +
@@ -1487,6 +1641,12 @@ func main() {
 	res.Distribution["revision_family_cases_outside_model"] = revOutside
 	res.Distribution["revision_family_instances_compared"] = revSites
 	res.Distribution["revision_family_shapes"] = revDist
+	res.Distribution["scope_family_cases(incl_mutated_variants)"] = scopeN
+	res.Distribution["scope_family_cases_clean"] = scopeClean
+	res.Distribution["scope_family_mutated_variants"] = scopeMut
+	res.Distribution["scope_family_cases_outside_model"] = scopeOutside
+	res.Distribution["scope_family_instances_compared"] = scopeSites
+	res.Distribution["scope_family_shapes"] = scopeDist
 	res.Distribution["corpus_cases"] = corpusN
 	res.Distribution["corpus_cases_clean"] = corpusClean
 	res.Distribution["clean_base_variants"] = clean
@@ -1501,6 +1661,21 @@ func main() {
 	res.Distribution["deviate_properties_written(kind target property)"] = mutProps
 	res.Distribution["deepest_chain_of_nested_uses"] = maxNest
 	res.Write(f.Out)
+}
+
+// want: C06_FAMILIES (a debugging aid; unset = every family) restricts the run to the named input
+// families: corpus, chains, rev, scope, seeded.
+func want(family string) bool {
+	v := os.Getenv("C06_FAMILIES")
+	if v == "" {
+		return true
+	}
+	for _, x := range strings.Split(v, ",") {
+		if x == family {
+			return true
+		}
+	}
+	return false
 }
 
 func firstLine(s string) string {
